@@ -1,0 +1,59 @@
+// Copyright 2024 The Go Authors. All rights reserved.
+// Use of this source code is governed by a BSD-style
+// license that can be found in the LICENSE file.
+
+//go:build verif
+
+// Contracts (//@ lines) for package storage; compiled only with -tags verif.
+
+package storage
+
+// Contracts of the storage interfaces (assumed for every implementation; the
+// file-system implementation below is verified against the same statements).
+//@ contract BucketHandle.Object
+//@   ensures result != nil
+//@ contract ObjectHandle.NewWriter
+//@   ensures result1 == nil ==> result0 != nil
+//@ contract ObjectHandle.NewReader
+//@   ensures result1 == nil ==> result0 != nil
+
+// C18: the file-system bucket.
+
+//@ contract NewFSObject
+//@   requires b != nil
+//@   modifies nothing
+
+//@ contract (*FSBucket).Object
+//@   requires b != nil
+//@   modifies nothing
+
+// Reading an absent object reports ErrObjectNotExist.
+//@ contract (*FSObject).NewReader
+//@   at call Is#1: after ghost $notExist = result
+//@   ensures $notExist ==> result1 == ErrObjectNotExist
+//@   modifies $notExist
+
+//@ ghost notExist bool
+
+//@ contract (*FSObject).NewWriter
+//@   modifies nothing
+
+// The walk callback: an entry is listed only if it is a file whose slash-separated
+// path starts with the prefix; a walk error is passed on (the entry may be nil).
+//@ contract Objects$1
+//@   requires err == nil ==> d != nil
+//@   ensures err != nil ==> result == err
+//@   at call append#1: assert d != nil && !d.IsDir() && strings.HasPrefix(name, prefix)
+//@   modifies nothing
+
+//@ contract (*FSBucket).Objects
+//@   requires b != nil
+//@   modifies nothing
+
+// The iterator yields names[index] and advances; it is done exactly when the
+// index has reached the end.
+//@ contract (*FSObjectIterator).Next
+//@   requires it.index >= 0
+//@   ensures old(it.index) < len(it.names) ==> err == nil && name == it.names[old(it.index)] && it.index == old(it.index)+1
+//@   ensures old(it.index) >= len(it.names) ==> err == ErrObjectIteratorDone && name == "" && it.index == old(it.index)
+//@   modifies it.index
